@@ -1858,10 +1858,8 @@ m("C12", "filler-without-handler", C,
   '''                emit_func_convert_and_escape("__quote") + \\
                 (self.visit_Context(slot) or [ast.Pass()])''')
 m("C12", "filler-called-with-stale-token", C,
-  '''        orelse = template("__token = None") + template(
-            "SLOT(__stream, econtext.copy(), rcontext)",''',
-  '''        orelse = template(
-            "SLOT(__stream, econtext.copy(), rcontext)",''')
+  '''        orelse = template("__token = None") + self._merge_globals(''',
+  '''        orelse = self._merge_globals(''')
 m("C11", "codeblock-syntaxerror-escapes", C,
   '''        try:
             stmts = template(textwrap.dedent(node.source.strip('\\n')))
@@ -2167,3 +2165,13 @@ m("C09", "macro-merge-snapshot-after-call", C,
 ''', '''        return call + \\
             template("SNAPSHOT = rcontext.copy()", SNAPSHOT=snapshot) + \\
 ''')
+
+for _p in ("C05", "C09"):
+    m(_p, "filler-globals-not-merged", C,
+      '''        orelse = template("__token = None") + self._merge_globals(
+            node, template(
+                "SLOT(__stream, econtext.copy(), rcontext)",
+                SLOT=name))''',
+      '''        orelse = template("__token = None") + template(
+            "SLOT(__stream, econtext.copy(), rcontext)",
+            SLOT=name)''')
